@@ -401,8 +401,15 @@ def encode_chain(mod, t, chain, v, ch):
         if not chain:
             return content
         out = content
-        for tag in reversed(chain):
-            out = tlv(tag, True, out, ch)
+        uniform = len(chain) >= 2 and getattr(ch, "no_mixed_chain", False)
+        if uniform:
+            ch.suppress.add("indef")
+        try:
+            for tag in reversed(chain):
+                out = tlv(tag, True, out, ch)
+        finally:
+            if uniform:
+                ch.suppress.discard("indef")
         return out
     return wrap(chain, constructed, content, ch)
 
